@@ -21,7 +21,7 @@ import (
 )
 
 var replayFamilies = map[string][]string{
-	"C01": {"lifecycle"}, "C02": {"lifecycle", "batch", "config"}, "C03": {"flow"}, "C04": {"lifecycle", "flow", "batch"},
+	"C01": {"lifecycle"}, "C02": {"lifecycle", "batch", "config", "flow"}, "C03": {"flow"}, "C04": {"lifecycle", "flow", "batch"},
 	"C05": {"lifecycle", "flow"}, "C06": {"batch"}, "C07": {"batch"}, "C08": {"pool", "batch", "config"}, "C09": {"batch", "config"},
 	"C10": {"flow"}, "C11": {"batch"}, "C12": {"pool"}, "C13": {"storeconc"}, "C14": {"store"}, "C15": {"value"},
 	"C16": {"bind"}, "C17": {"lifecycle", "batch"}, "C18": {"lifecycle", "batch", "flow"}, "C19": {"config"}, "C20": {"lifecycle", "batch", "config"},
